@@ -1207,3 +1207,42 @@ func reachUnder(c *core.Ctx, fn *core.Func, g *core.Graph, assume ...core.Atom) 
 	}
 	return g.ReachFrom(g.Entry, true, core.AvoidEdges(avoid...))
 }
+
+// naturalLoop returns the vertices of the loop whose head is given: the head
+// and every vertex that reaches a back edge of the head without passing the
+// head (the sources of back edges are the predecessors the head dominates).
+func naturalLoop(g *core.Graph, head *core.V) map[*core.V]bool {
+	in := map[*core.V]bool{head: true}
+	var work []*core.V
+	// go/cfg may put an empty block in front of the loop condition into which
+	// both the entry and the back edges flow: look through such vertices
+	var sources func(v *core.V, depth int)
+	sources = func(v *core.V, depth int) {
+		for _, p := range v.Preds {
+			if p == head {
+				continue
+			}
+			if g.Dominates(head, p) {
+				work = append(work, p)
+			} else if p.AST == nil && p.Cond == nil && len(p.Succs) == 1 && depth < 4 {
+				in[p] = true
+				sources(p, depth+1)
+			}
+		}
+	}
+	sources(head, 0)
+	for len(work) > 0 {
+		v := work[len(work)-1]
+		work = work[:len(work)-1]
+		if in[v] {
+			continue
+		}
+		in[v] = true
+		for _, p := range v.Preds {
+			if !in[p] {
+				work = append(work, p)
+			}
+		}
+	}
+	return in
+}
